@@ -104,7 +104,7 @@ class C19(Prop):
     def cases(self, tier, seed):
         import numpy as np
         rng = np.random.RandomState(seed + 1900)
-        n_cases = 160 if tier == 'quick' else 2500
+        n_cases = 120 if tier == 'quick' else 2500
         A = ac.ATTRS
         for i in range(n_cases):
             d = int(rng.randint(2, 5))
